@@ -54,6 +54,7 @@ type GhostStmt struct {
 	Var   string
 	C     Clause
 	After bool // evaluated after the call (res bound)
+	NoGuard bool // `forbid`: an assertion about calls that should not exist; it need not match any call site
 }
 
 type GhostDecl struct {
@@ -621,6 +622,9 @@ func (sp *Specs) loadSpecFile(path, pkgPath string) error {
 				kind = kind[:i]
 			}
 			gs := GhostStmt{Kind: kind, After: after}
+			if kind == "forbid" {
+				gs.Kind, gs.NoGuard = "assert", true
+			}
 			if kind == "set" {
 				parts := strings.SplitN(body, "=", 2)
 				gs.Var = strings.TrimSpace(parts[0])
